@@ -25,7 +25,8 @@ ASSUMPTIONS = ["normal (fully-closeable) protocols are asserted; for IHalfClosea
                "read/writeConnectionLost notifications are recorded and reported, not asserted (docs: half-close "
                "is unspecified)", "simulated TCP; 0-2 kills of the link in use"]
 
-NAMES = ["p", "q", "r", "s"]
+# (two of the four names are canonically equivalent but different strings: subprotocol names are compared as given)
+NAMES = ["p", "q", "re\u0301sume\u0301", "r\u00e9sum\u00e9"]
 
 
 @st.composite
